@@ -2,6 +2,7 @@ package props
 
 import (
 	"fmt"
+	"regexp"
 	"strings"
 
 	"verif/harness/model"
@@ -21,6 +22,7 @@ type runCase struct {
 	Format   string      `json:"format,omitempty"`
 	Wrap     string      `json:"wrap,omitempty"`
 	Enums    map[string][]string `json:"enums,omitempty"`
+	Global   []string            `json:"global,omitempty"`
 }
 
 // runVerdict is the classified outcome of a runCase.
@@ -42,7 +44,7 @@ func executeRunCase(s *vh.Session, c runCase) runVerdict {
 	rs := &vh.RunSpec{
 		Prog: c.Conv.Prog, Conv: c.Conv, Patterns: []string{"./" + c.Conv.ConvPkg},
 		Manifest: vh.DriverManifest{Mode: c.Mode, Values: c.Values, Methods: infos, Sharing: c.Sharing, Distinct: c.Distinct, Races: c.Race, Wrap: c.Wrap, Enums: c.Enums},
-		Race:     c.Race, Seed: c.Seed, Funcs: c.Funcs, Format: c.Format,
+		Race:     c.Race, Seed: c.Seed, Funcs: c.Funcs, Format: c.Format, Global: c.Global,
 	}
 	out := s.Execute(rs)
 	v := runVerdict{Out: out}
@@ -90,4 +92,72 @@ func account(s *vh.Session, prefix string, out *vh.RunOutcome) {
 			s.LabelN("drv:"+l, n)
 		}
 	}
+}
+
+var reZeroKept = regexp.MustCompile(`method (\w+): field target((?:\.\w+)+) \(source type ([^)]*)\): zero source of a selected ignoreZeroValueField category must leave the target unchanged`)
+
+// convOpAt returns the op of the conversion plan of the target field at path below the
+// top struct plan of method name ("" if it cannot be found or the field uses map|FUNC).
+func convOpAt(c runCase, name string, path []string) string {
+	for _, m := range c.Conv.Methods {
+		if m.Name != name {
+			continue
+		}
+		res, rej := c.Conv.Plan(m)
+		if rej != nil {
+			return ""
+		}
+		p := res.Top
+		if p.Op == "update-ptr" {
+			p = p.Elem
+		}
+		for i, seg := range path {
+			if p == nil || p.Op != "struct" {
+				return ""
+			}
+			var next *model.Plan
+			found := false
+			for _, fp := range p.Fields {
+				if fp.Target == seg {
+					found = true
+					if fp.Func != "" {
+						return ""
+					}
+					next = fp.Conv
+				}
+			}
+			if !found || next == nil {
+				return ""
+			}
+			if i == len(path)-1 {
+				return next.Op
+			}
+			p = next
+		}
+	}
+	return ""
+}
+
+// featuresOf derives the structural features of a failing case that known findings are
+// matched on (together with their failure pattern).
+func featuresOf(id string, c runCase, v runVerdict) []string {
+	if v.Class != "violation" {
+		return nil
+	}
+	var fs []string
+	switch id {
+	case "C04":
+		fs = append(fs, c04Features(c, v)...)
+	case "C10", "C11":
+		if m := reZeroKept.FindStringSubmatch(v.Msg); m != nil {
+			srcType := m[3]
+			nillableKind := strings.HasPrefix(srcType, "*") || strings.HasPrefix(srcType, "[]") || strings.HasPrefix(srcType, "map[")
+			op := convOpAt(c, m[1], strings.Split(strings.TrimPrefix(m[2], "."), "."))
+			if nillableKind && (op == "call" || op == "ref" || op == "method") {
+				// nil pointer / slice / map source whose conversion is a function or method call
+				fs = append(fs, "update-nillable-via-call")
+			}
+		}
+	}
+	return fs
 }
